@@ -155,15 +155,17 @@ class C20(Check):
         if res.cls not in ("ok", "error"):
             viol.append({"sig": {"kind": "crash", "cls": res.cls},
                          "what": f"clean ended with {res.cls} (exit {res.exit})", "detail": detail})
-        m = re.search(r"Removed (\d+) files", res.out)
+        # "reports how many it removed": any integer on a stdout line that names no path (the wording is free)
+        nums = [int(x) for l in res.out.split("\n") if "/" not in l and not any(n in l for n in NAMES)
+                for x in re.findall(r"(?<![\w.])\d+(?![\w.])", l)]
         if res.exit == 0:
             left = [p for p in allowed if p in after]
             if left:
                 viol.append({"sig": {"kind": "incomplete", "names": ",".join(sorted(os.path.basename(p) for p in left))},
                              "what": f"clean exited 0 but left bytecode files {left}", "detail": detail})
-            if not m or int(m.group(1)) != len(removed):
+            if len(removed) not in nums:
                 viol.append({"sig": {"kind": "count"},
-                             "what": f"reported count {m.group(1) if m else None} != removed {len(removed)}",
+                             "what": f"reported count {nums or None} != removed {len(removed)}",
                              "detail": detail})
         tags = []
         if removed:
